@@ -28,6 +28,9 @@ type c16Node struct {
 	buf  [c16Cap]byte
 	size int // symbolic, 0..c16Cap
 	mode fs.FileMode
+	// big: a sparse file of arbitrary length (not limited to c16Cap) whose bytes are all zero and
+	// are not stored; reads deliver counts only (the caller's buffer is left as it is)
+	big bool
 }
 
 func c16Dir(name string, kids ...*c16Node) *c16Node {
@@ -40,6 +43,15 @@ func c16SymFile(name, tag string, max int) *c16Node {
 	n := &c16Node{name: name, mode: 0o644}
 	vp.Fill(n.buf[:], tag+".data")
 	l := int(vp.U8(tag+".len") & 31)
+	vp.Assume(l <= max)
+	n.size = l
+	return n
+}
+
+// c16BigFile: a sparse (all-zero) regular file of arbitrary length 0..max (max < 2^18).
+func c16BigFile(name, tag string, max int) *c16Node {
+	n := &c16Node{name: name, mode: 0o644, big: true}
+	l := int(vp.U32(tag+".len") & 0x3FFFF)
 	vp.Assume(l <= max)
 	n.size = l
 	return n
@@ -125,10 +137,13 @@ type c16FS struct {
 	// failRead / failWrite: the call with this index (counted per handle) reports errC16
 	failRead  int
 	failWrite int
-	mkdirs    []string
-	creates   []string
-	chtimes   []string
-	handles   []*c16Handle
+	// failOp/failPath: the named operation ("open", "readdir", "mkdir", "openfile") on that path fails
+	failOp   string
+	failPath string
+	mkdirs   []string
+	creates  []string
+	chtimes  []string
+	handles  []*c16Handle
 }
 
 func c16NewFS(tag string, root *c16Node) *c16FS {
@@ -152,7 +167,12 @@ type c16Handle struct {
 	closed bool
 }
 
+func (m *c16FS) fails(op, p string) bool { return m.failOp == op && m.failPath == p }
+
 func (m *c16FS) Open(name string) (fs.File, error) {
+	if m.fails("open", name) {
+		return nil, &fs.PathError{Op: "open", Path: name, Err: errC16}
+	}
 	n := m.root.lookup(name)
 	if n == nil {
 		return nil, &fs.PathError{Op: "open", Path: name, Err: errC16NotExist}
@@ -171,6 +191,9 @@ func (m *c16FS) Stat(name string) (fs.FileInfo, error) {
 }
 
 func (m *c16FS) ReadDir(name string) ([]fs.DirEntry, error) {
+	if m.fails("readdir", name) {
+		return nil, &fs.PathError{Op: "readdir", Path: name, Err: errC16}
+	}
 	n := m.root.lookup(name)
 	if n == nil {
 		return nil, &fs.PathError{Op: "readdir", Path: name, Err: errC16NotExist}
@@ -209,12 +232,30 @@ func (h *c16Handle) Read(p []byte) (int, error) {
 		h.rerr = true
 		return 0, errC16
 	}
-	vp.Assume(h.n.size <= c16Cap) // only the first c16Cap bytes of a file are stored
 	rem := h.n.size - h.pos
 	if rem <= 0 {
 		h.reof = true
 		return 0, io.EOF
 	}
+	if h.n.big {
+		n := vp.IteInt(len(p) < rem, len(p), rem) & 0xFFFF
+		if h.fs.chunked {
+			c := int(vp.U16(h.tag+".r"+string(rune('0'+k))) & 0xFFFF)
+			vp.Assume(c <= n)
+			vp.Assume(c >= 1)
+			n = c
+		}
+		h.pos += n
+		h.rn[k] = n
+		if h.pos == h.n.size {
+			if vp.Bool(h.tag + ".eofWithData") {
+				h.reof = true
+				return n, io.EOF
+			}
+		}
+		return n, nil
+	}
+	vp.Assume(h.n.size <= c16Cap) // only the first c16Cap bytes of a file are stored
 	n := vp.IteInt(len(p) < rem, len(p), rem) & 31
 	if h.fs.chunked {
 		c := int(vp.U8(h.tag+".r"+string(rune('0'+k))) & 31)
@@ -256,7 +297,9 @@ func (h *c16Handle) Write(p []byte) (int, error) {
 	}
 	w := len(p)
 	if h.fs.shortWrite {
-		c := int(vp.U8(h.tag+".w"+string(rune('0'+k))) & 31)
+		// piece sizes repeat with period 8 (no loss within the bounds: a copy of <= 5 bytes makes
+		// <= 6 write calls); a copy loop that never ends then also never ends in the native replay
+		c := int(vp.U8(h.tag+".w"+string(rune('0'+k&7))) & 31)
 		vp.Assume(c <= w)
 		w = c
 		if w == 0 {
@@ -288,6 +331,9 @@ func (m *c16FS) Type() filesystem.Type { return filesystem.TypeFat32 }
 
 func (m *c16FS) Mkdir(p string) error {
 	m.mkdirs = append(m.mkdirs, p)
+	if m.fails("mkdir", p) {
+		return &fs.PathError{Op: "mkdir", Path: p, Err: errC16}
+	}
 	d, b := c16Split(p)
 	par := m.root.lookup(d)
 	if par == nil || !par.dir {
@@ -304,6 +350,9 @@ func (m *c16FS) Mkdir(p string) error {
 }
 
 func (m *c16FS) OpenFile(p string, flag int) (filesystem.File, error) {
+	if m.fails("openfile", p) {
+		return nil, &fs.PathError{Op: "open", Path: p, Err: errC16}
+	}
 	d, b := c16Split(p)
 	par := m.root.lookup(d)
 	if par == nil || !par.dir {
